@@ -103,8 +103,13 @@ Fixpoint run_entries (m : smap) (ops : list (bytes * bytes)) (max_count : N) : l
    extension_substatus): one poll of the aggregate status file is ONE health observation.  A poll fails when
    the file cannot be read or its version differs from the extension's, and succeeds otherwise; each path
    calls update_state exactly once. ---- *)
-Inductive poll := PollReadErr | PollMismatch | PollHealthy.
+(* PollInstall: an install/update attempt of the monitor loop (report_proxy_agent_service_status): every branch
+   of it -- tool succeeded, tool failed, tool could not be run -- calls update_state(false) exactly once. *)
+Inductive poll := PollReadErr | PollMismatch | PollHealthy | PollInstall.
 Definition poll_ok (p : poll) : bool := match p with PollHealthy => true | _ => false end.
+(* what the extension REPORTS is the status file written by common::report_status from the in-memory status:
+   the same value *)
+Definition reported (s : status_state) : hstate := cur s.
 Definition poll_step (s : status_state) (p : poll) : status_state := update_state s (poll_ok p).
 Definition run_polls (s : status_state) (ps : list poll) : list hstate := run s (map poll_ok ps).
 Definition state_after_polls (s : status_state) (ps : list poll) : status_state := run_state s (map poll_ok ps).
